@@ -40,6 +40,12 @@ generated; the write-ups are `fixes/C08-indus-*.md`):
   R3 batch: arrival instants are pushed back so that no batch closes (fills or times out) while another one
      is in process: BatchProcessor never looks at `_processing`, a second batch starts concurrently
      (`indus/batch/in-service-exceeds-limit`; known finding, `fixes/C08-indus-batch-concurrent-batches.known.md`).
+     Cases with `"overlap": true` are exempt from R3 and are judged with the header flag `overlap`: batches are
+     independent services (the one-batch limit is not judged, DESIGN 13.6), every other clause stays and the
+     no-strand clauses become unconditional — a flush timeout that is due must start its batch although another
+     batch is in process, and at the end of a finite workload every accepted item must have been completed.
+     `_batch_overlap_case` builds the schedules for it: `process_time >= timeout_s > 0`, full batches that keep
+     the processor busy, partial batches opening during a process whose timeout falls before / on / after its end.
 
 Constructor options varied: pooled `downstream` set / None (`nosink`), `queue_capacity` 0 (unlimited) .. 3, `cycle_time` 0;
 conveyor `capacity` 0 (unlimited) .. 3, `transit_time` 0; gate `queue_capacity` 0 .. 3, empty / zero-length / coinciding
@@ -393,7 +399,7 @@ def header(case):
     if comp == "gate":
         return f"gate {1 if case['init_open'] else 0} {case['qcap']}"
     if comp == "batch":
-        return f"batch {case['bsize']} {case['timeout'] * Q}"
+        return f"batch {case['bsize']} {case['timeout'] * Q}" + (" overlap" if case.get("overlap") else "")
     return f"reneging {case['limit']} {_opt(case['qcap'])}" + ("" if case.get("rtarget", True) else " 0")
 
 
@@ -423,6 +429,8 @@ def nontrivial_key(case, impl_out):
         if comp == "conveyor" and t[1] == "offer" and ctr and ctr[0] not in ("0", "1"):
             return key()
         if comp == "batch" and t[1] == "bfin" and len(ctr) > 2 and int(ctr[2]) >= 2:
+            return key()
+        if comp == "batch" and t[1] == "timeout" and left.endswith(" start"):
             return key()
         if comp == "reneging":
             if t[1] == "offer":
@@ -496,7 +504,7 @@ def _batch_gaps_ok(case):
 def _batch_space(case):
     """R3: push the arrivals of every later batch back until consecutive batch closes are more than `proc`
     apart (the items of one batch move together, so the plan keeps its shape)"""
-    if "R3" in LIFT:
+    if "R3" in LIFT or case.get("overlap"):
         return case
     plan, left = _batch_plan(case)
     delta, prev = 0, None
@@ -510,6 +518,28 @@ def _batch_space(case):
         case["reqs"][i][0] += delta
     if not _batch_gaps_ok(case):           # cannot happen; keep the restriction unconditional
         case["reqs"] = case["reqs"][:1]
+    return case
+
+
+def _batch_overlap_case(rng, case, hop):
+    """slow processor, quick flush timer (`process_time >= timeout_s > 0`): full batches keep the processor busy
+    while younger partial batches open, wait for their own timeout (due before, exactly at, or after the end of
+    the batch in process) and are never topped up; every accepted item must still be completed"""
+    bs = case["bsize"] = max(case["bsize"], rng.choice([1, 2, 2, 3]))
+    to = case["timeout"] = rng.choice([1, 1, 2, 4])
+    proc = case["proc"] = to + rng.choice([0, 1, 2, 4, 8])
+    case["overlap"] = True
+    reqs, t = [], rng.choice([0, 0, 1, 3])
+    for _ in range(rng.choice([1, 1, 2, 3])):
+        reqs += [[t, hop()] for _ in range(bs)]                       # a full batch: in process t .. t + proc
+        k = rng.choice([1, 1, 2, max(1, bs - 1)]) if bs > 1 else 0    # a partial batch that is never filled
+        d = rng.choice([0, 0, 1, max(0, proc - to - 1), max(0, proc - to), max(0, proc - 1), proc, proc + 1])
+        for j in range(min(k, bs - 1)):
+            reqs.append([t + d + (rng.choice([0, 0, 1]) if j else 0), hop()])
+        t += rng.choice([d + to + 1, proc, proc + to + 1, proc + d + 2 * to + 2])
+    if rng.random() < 0.3:
+        reqs.append([t + rng.choice([0, 1, to, proc]), hop()])       # a straggler
+    case["reqs"] = reqs[:14]
     return case
 
 
@@ -557,7 +587,13 @@ def generate(rng, i, tier):
         bs = rng.choice([1, 2, 2, 3, 4]) if to == 0 or "R2" in LIFT else rng.choice([2, 2, 3, 4])     # R2
         proc = rng.choice([0, 1, 2, 4])
         case = {"family": "indus", "comp": comp, "bsize": bs, "proc": proc, "timeout": to}
+        r = rng.random()
+        if r < 0.3:
+            return _batch_overlap_case(rng, case, hop)
         case["reqs"] = [[t, hop()] for t in _arrival_times(rng, n, [max(proc, 1), max(to, 1)])]
+        if r < 0.5:
+            case["overlap"] = True           # batches may close while another is in process, judged as independent services
+            return case
         return _batch_space(case)                                                       # R3
     # reneging
     limit = rng.choice([1, 1, 2, 3])
@@ -664,11 +700,19 @@ THEOREMS: list[str] = [_NS + n for n in [
     "reneging_no_target_discards",       # model, reneged_target None: nothing is ever forwarded to a reneged sink
     "pooled_no_downstream_forwards_nothing",
     "judge_sound_served_xor_reneged",    # judge accepts a reneging transcript => reported served + reneged = deliveries of dequeued items so far
+    "batch_partial_has_timer",           # model, both variants, all schedules: a non-empty buffer always has its flush timer armed for first arrival + timeout
+    "batch_due_timeout_flushes",         # model: a due timeout with a non-empty buffer starts a batch of the whole buffer, whatever else is in process
+    "judge_sound_batch_all_completed",   # judge accepts a finite batch transcript (timeout > 0, overlap or not) => every offered id reached the sink
+    "judge_sound_batch_completed_or_buffered",   # any timeout (0 included): every offered id reached the sink or is in the final buffer
+    "judge_sound_batch_overdue",         # overlap: no accepted transcript lets the clock pass the flush deadline of a waiting item
+    "judge_sound_batch_overdue_idle",    # same with no batch in process instead of overlap
 ]]
 PARTIAL_THEOREMS = {
     _NS + "judge_sound_in_service": "soundness of the indus judge is proved for two clauses (concurrency limit, completed at most once); "
-                                    "the remaining clauses of the item-state partition (no item lost, order, no strand, counters) are the "
-                                    "judge's definition, evaluated on every implementation transcript, not derived from an independent statement",
+                                    "for the batch component also no-loss / no-strand "
+                                    "(judge_sound_batch_all_completed, judge_sound_batch_overdue); the remaining clauses of the item-state partition "
+                                    "(order, counters, no strand for the other four components) are the judge's definition, evaluated on every "
+                                    "implementation transcript, not derived from an independent statement",
     _NS + "pooled_repaired_conservation": "counting form for the repaired PooledCycleResource model only; for the current code "
                                           "pooled_current_overtakes proves the negation on a concrete schedule",
 }
@@ -683,6 +727,8 @@ RULE = ("family indus: <=10 tagged items offered to one real PooledCycleResource
         "RenegingQueuedResource inside a Simulation (0.25 s grid, bursts on one nanosecond, arrivals on completion instants, 0-3 "
         "zero-time forwarder hops, pool/capacity/batch sizes 1-4, gate schedules with coinciding edges plus programmatic open()/close() "
         "from a controller entity, patience 0-2 s, default patience inf/0/.., reneged_target set / None, pooled downstream set / None, "
-        "waiting rooms of capacity 0; impatient bursts: more same-instant items than slots with service > patience); restrictions R1-R3 "
+        "waiting rooms of capacity 0; impatient bursts: more same-instant items than slots with service > patience; batch `overlap` cases: "
+        "process_time >= timeout_s > 0, partial batches opening while a full batch is in process with their flush timeout before / on / after its "
+        "end, never topped up — judged with batches as independent services, one-batch limit unjudged there); restrictions R1-R3 "
         "(hv/props/c08_indus.py docstring) keep three reproduced defects out of the generated inputs; non-trivial = an item waited, was "
         "refused, reneged, shared the belt or a batch of >= 2 items was processed")
